@@ -339,6 +339,27 @@ func (d *c11Dict) blobLoose(b *libshare.Blob) (string, bool) {
 	ids := make([]string, len(shs))
 	for i, s := range shs {
 		if i < len(shs)-1 {
+			if _, known := d.ids[string(s.ToBytes())]; i > 0 && !known {
+				// a middle share re-split from a blob assembled across blobs of different share versions (malformed
+				// getter answers only): a continuation share contributes its data whatever version its info byte
+				// announces, so it is identified by namespace + data, like the last share below
+				nsz := libshare.NamespaceSize
+				sb := s.ToBytes()
+				var cands []uint64
+				for k, kn := range d.order {
+					if bytes.Equal(kn[:nsz], sb[:nsz]) && kn[nsz]&1 == 0 && bytes.Equal(kn[nsz+1:], sb[nsz+1:]) {
+						cands = append(cands, uint64(k+1))
+					}
+				}
+				switch len(cands) {
+				case 0:
+				case 1:
+					ids[i] = strconv.FormatUint(cands[0], 10)
+					continue
+				default:
+					return "", false
+				}
+			}
 			ids[i] = strconv.FormatUint(d.id(s.ToBytes()), 10)
 			continue
 		}
